@@ -39,6 +39,8 @@ pub(crate) mod conn;
 pub(crate) mod streams;
 #[cfg(not(wasm_browser))]
 mod tls;
+#[cfg(all(iroh_verif, not(wasm_browser)))]
+pub use self::tls::verif_hooks as verif_dial_hooks;
 #[cfg(not(wasm_browser))]
 mod util;
 
